@@ -167,7 +167,9 @@ def run_history(pool, wd_seed, nsteps_settings):
             d = np.asarray(A).astype(np.complex128) - A0.astype(np.complex128)
             z = e.zero.astype(np.complex128)
             u = float(np.finfo(np.zeros(1, dtype=e.dtype).real.dtype).eps)
-            tol = 512 * u * (np.abs(A0) + np.abs(z)) + 1e-300
+            # an entry may be a sum of cancelling terms (|z| tiny): the partial sums round at the magnitude of the terms, for which
+            # the largest entry of the tensor is the available proxy
+            tol = 512 * u * (np.abs(A0) + np.abs(z) + float(np.max(np.abs(z), initial=0.0))) + 1e-300
             if not np.all(np.abs(d - z) <= tol):
                 i = int(np.argmax(np.abs(d - z) - tol))
                 failure["v"] = ("not-accumulating", f"{e.label} ({where}, pre-fill {kind}): A_after - A_before = {d.ravel()[i]!r} but the kernel's zero-start result is "
